@@ -37,7 +37,7 @@ def run(prog, chk):
         "of the order in which endpoints answer; the values are touched only through comparisons, so one representative per order "
         "region decides all of 0..2^64-1.")
     chk.not_decided = ["first-valid-reply-wins and error-only-when-all-failed over all arrival orders and timings"]
-    chk.rule("C15.table", "consolidation decision table per field: discard iff absent/zero/out of range; update direction", floor=200)
+    chk.rule("C15.table", "consolidation decision table per field: discard iff absent/zero/out of range; update direction", floor=150)
     chk.rule("C15.wiring", "every field's consolidation is applied to the consolidated configuration for every pushed configuration", floor=6)
 
     helpers = {"KSI_Integer_getUInt64", "KSI_Integer_compare", "isMaxLevelValid", "isAggrPeriodValid", "isMaxRequestsValid", "isCalendarTimeValid"}
